@@ -577,5 +577,76 @@ theorem parseTxnPostings_ok_wf {s r : List Char} {ps : List RawPosting} {last : 
       · cases e
     · cases h
 
+/-! ## timestamps: every parsed timestamp is a resolved token -/
+
+/-- what the grammar guarantees about the fraction digits of a token: 1–9 ASCII digits -/
+def FracDigits (t : Time.TsToken) : Prop :=
+  ∀ h mi s ds, t.time = some (h, mi, s, some ds) → (∀ c ∈ ds, isDecDigit c = true) ∧ ds.length ≤ 9
+
+theorem ofOutcome_ok {α} {o : Outcome α} {s r : List Char} {a : α} (h : ofOutcome o s = .ok a r) : o = .ok a := by
+  unfold ofOutcome at h
+  split at h
+  · cases h; rfl
+  · cases h
+  · cases h
+
+theorem pDatetime_ok_frac {s r : List Char} {d : Nat × Nat × Nat} {hh mi sec : Nat} {frac : Option (List Char)}
+    (h : pDatetime s = .ok (d, (hh, mi, sec, frac)) r) :
+    ∀ ds, frac = some ds → (∀ c ∈ ds, isDecDigit c = true) ∧ ds.length ≤ 9 := by
+  unfold pDatetime at h
+  obtain ⟨_, s1, _, h⟩ := (Res.bind_ok _ _ _ _).mp h
+  obtain ⟨_, s2, _, h⟩ := (Res.bind_ok _ _ _ _).mp h
+  obtain ⟨_, s3, _, h⟩ := (Res.bind_ok _ _ _ _).mp h
+  obtain ⟨_, s4, _, h⟩ := (Res.bind_ok _ _ _ _).mp h
+  obtain ⟨_, s5, _, h⟩ := (Res.bind_ok _ _ _ _).mp h
+  obtain ⟨_, s6, _, h⟩ := (Res.bind_ok _ _ _ _).mp h
+  obtain ⟨_, s7, _, h⟩ := (Res.bind_ok _ _ _ _).mp h
+  obtain ⟨fr, s8, hfr, h⟩ := (Res.bind_ok _ _ _ _).mp h
+  split at h
+  · cases h
+    intro ds hds
+    subst hds
+    rcases opt_ok hfr with ⟨x, e, hx⟩ | ⟨e, _⟩
+    · cases e
+      obtain ⟨_, t1, _, h1⟩ := (Res.bind_ok _ _ _ _).mp hx
+      obtain ⟨_, _, h3, h4⟩ := takeMN_ok _ _ _ _ _ _ (cutErr_ok h1)
+      exact ⟨h4, h3⟩
+    · cases e
+  · cases h
+
+/-- **timestamp**: whichever of the three notations matched, the result is `resolveTs` of a token whose
+    fraction (if any) has 1–9 digits -/
+theorem parseTimestamp_resolved {cfg : Time.TsCfg} {s r : List Char} {ts : Ts} (h : parseTimestamp cfg s = .ok ts r) :
+    ∃ t, FracDigits t ∧ Time.resolveTs cfg t = .ok ts := by
+  unfold parseTimestamp at h
+  rcases alt_ok h with h | h
+  · unfold parseDatetimeTz at h
+    obtain ⟨dt, s1, hdt, h⟩ := (Res.bind_ok _ _ _ _).mp h
+    obtain ⟨z, s2, _, h⟩ := (Res.bind_ok _ _ _ _).mp h
+    refine ⟨_, ?_, ofOutcome_ok h⟩
+    intro hh mi sec ds e
+    simp only [Option.some.injEq] at e
+    obtain ⟨d, hh', mi', sec', fr⟩ := dt
+    simp only [Prod.mk.injEq] at e
+    obtain ⟨_, _, _, rfl⟩ := e
+    exact pDatetime_ok_frac hdt ds rfl
+  rcases alt_ok h with h | h
+  · unfold parseDatetime at h
+    obtain ⟨dt, s1, hdt, h⟩ := (Res.bind_ok _ _ _ _).mp h
+    refine ⟨_, ?_, ofOutcome_ok h⟩
+    intro hh mi sec ds e
+    simp only [Option.some.injEq] at e
+    obtain ⟨d, hh', mi', sec', fr⟩ := dt
+    simp only [Prod.mk.injEq] at e
+    obtain ⟨_, _, _, rfl⟩ := e
+    exact pDatetime_ok_frac hdt ds rfl
+  rcases alt_ok h with h | h
+  · unfold parseDate at h
+    obtain ⟨d, s1, _, h⟩ := (Res.bind_ok _ _ _ _).mp h
+    refine ⟨_, ?_, ofOutcome_ok h⟩
+    intro hh mi sec ds e
+    cases e
+  · cases h
+
 end Syntax
 end Tackler
